@@ -32,6 +32,7 @@ TESTS = {
     "standin_keygen": ("zkchannels-crypto", ["C19", "C07", "C08", "C01"], ["ps.KeyPair::new", "ps.SecretKey::new", "ps.PublicKey::from_secret_key"]),
     "standin_ps_publickey_consume": ("zkchannels-crypto", ["C12", "C01", "C02", "C06"], ["ps.PublicKey::consume"]),
     "standin_pedersen_commitment": ("zkchannels-crypto", ["C09", "C10", "C11", "C05"], ["pedersen.Commitment::new", "pedersen.Commitment::verify_opening"]),
+    "standin_pedersen_params_challenge": ("zkchannels-crypto", ["C12", "C06"], ["pedersen.PedersenParameters::consume"]),
     "standin_cproof_verify": ("zkchannels-crypto", ["C11", "C10", "C01", "C02", "C08"], ["cproof.CommitmentProof::verify_knowledge_of_opening", "cproof.CommitmentProofBuilder::*"]),
     "standin_cproof_patterns": ("zkchannels-crypto", ["C10", "C11", "C09"], ["cproof.CommitmentProof::verify_knowledge_of_opening", "cproof.CommitmentProofBuilder::*", "pedersen.Commitment::new"]),
     "standin_sproof_verify": ("zkchannels-crypto", ["C11", "C10", "C02", "C13", "C12"], ["sproof.SignatureProof::verify_knowledge_of_signature", "sproof.SignatureProof::consume"]),
